@@ -18,7 +18,8 @@ RULE = (
     "exhaustive enumeration of a configuration alphabet: {Diffuse,Target} x {mono,power-law} x {no cloud, uniform cloud, "
     "pressure map} x channel sets, plus variants with non-default values in every header-mapped field (lat != long, "
     "awkward floats, strings up to the card limit); each is run through compute() with RNG/clock owned, written with "
-    "Table.write(format='fits'), read back, and reloaded with config_from_fits. Distinct by (configuration, clause, "
+    "Table.write(format='fits'), read back, and reloaded with config_from_fits; call histories: one LIVE configuration object is run, changed in place "
+    "(spectrum, event count, altitude, cloud model, copied-and-retitled) and run again, for all ordered mutation sequences up to depth 2 (quick) / 3 (thorough), every table judged against the configuration in force. Distinct by (configuration, clause, "
     "column/header key)."
 )
 ASSUMPTIONS = [
@@ -113,11 +114,63 @@ def judge(spec):
 
     kw = {k: v for k, v in spec.items() if k not in ("tag", "seed")}
     cfg = sim.make_config(**kw)
+    return judge_run(cfg, spec.get("seed", 3))
+
+
+MUTATIONS = ["mono9.5", "power", "events", "altitude", "copy_title", "cloud"]
+
+
+def mutate(cfg, m):
+    """one in-place change of a live configuration object between two runs (a parameter sweep in a notebook)"""
+    import nuspacesim.config as nc
+
+    if m == "mono9.5":
+        cfg.simulation.spectrum = nc.Simulation.MonoSpectrum(log_nu_energy=9.5)
+    elif m == "power":
+        cfg.simulation.spectrum = nc.Simulation.PowerSpectrum(index=2.2, lower_bound=7.0, upper_bound=10.0)
+    elif m == "events":
+        cfg.simulation.thrown_events = cfg.simulation.thrown_events + 17
+    elif m == "altitude":
+        cfg.detector.initial_position.altitude = 33.0 if cfg.detector.initial_position.altitude != 33.0 else 400.0
+    elif m == "copy_title":
+        cfg = cfg.model_copy(deep=True)
+        cfg.title = cfg.title + "+"
+    elif m == "cloud":
+        cfg.simulation.cloud_model = nc.Simulation.MonoCloud(altitude=2.5)
+    return cfg
+
+
+def judge_history(seq):
+    """run, then for each mutation of `seq`: change the SAME configuration object and run again; every table must describe
+    the configuration that produced it (E2: all mutation sequences up to the depth of the tier)"""
+    cfg = sim.make_config(mode="Diffuse", spectrum="mono", cloud="none", optical=True, radio=False, n=40)
+    out, n = [], 0
+    for step in range(len(seq) + 1):
+        if step:
+            cfg = mutate(cfg, seq[step - 1])
+        v, k = judge_run(cfg, 3 + step)
+        n += k
+        out += [(c, f"after {list(seq[:step])}: {e}", o) for c, e, o in v]
+        if v:
+            break
+    return out, n
+
+
+def _hist_job(seq):
+    return judge_history(seq)
+
+
+def judge_run(cfg, seed):
+    from astropy.table import Table
+
+    import nuspacesim.config as nc
+    from nuspacesim.utils.misc import flatten_dict
+
     out = []
     tmp = tempfile.mkdtemp(prefix="nssmc_c16_")
     n_items = 0
     try:
-        t = sim.run(cfg, seed=spec.get("seed", 3))
+        t = sim.run(cfg, seed=seed)
         fn = os.path.join(tmp, "r.fits")
         with warnings.catch_warnings():
             warnings.simplefilter("ignore")
@@ -304,6 +357,22 @@ def run(ctx):
             ctx.violation(c, {"spec": spec, "item": str(e)[:80]}, e, o)
         if i in (0, len(cs) - 2):
             ctx.sample({k: spec[k] for k in ("mode", "spectrum", "cloud", "optical", "radio", "tag")})
+    # call histories on one live configuration object
+    import itertools
+
+    from .. import par
+
+    depth = 2 if ctx.tier == "quick" else 3
+    seqs = [q for d in range(1, depth + 1) for q in itertools.permutations(MUTATIONS, d) if d < 3 or q[0] in ("mono9.5", "copy_title")]
+    for q, (v, n) in zip(seqs, par.pmap(_hist_job, seqs)):
+        ctx.tick(max(n, 1), ("history",) + tuple(q))
+        seen = set()
+        for c, e, o in v:
+            if c in seen:
+                continue
+            seen.add(c)
+            ctx.violation(c, {"history": list(q), "item": str(e)[:80]}, e, o)
+    ctx.cov["configuration_mutation_histories"] = len(seqs)
     for spec in [dict(mode="Diffuse", spectrum="mono", cloud="none", optical=True, radio=True, n=60, tag="cli"), dict(mode="Target", spectrum="power", cloud="mono", optical=True, radio=True, n=150, tag="cli")]:
         for stages in (False, True):
             v, n = judge_cli(spec, stages)
@@ -313,6 +382,10 @@ def run(ctx):
 
 
 def replay(case):
+    if "history" in case:
+        v, _ = judge_history(tuple(case["history"]))
+        item = case.get("item")
+        return [(c, e, o) for c, e, o in v if item is None or str(e)[:80] == item]
     v, _ = judge_cli(case["spec"], case.get("stages", False)) if case.get("cli") else judge(case["spec"])
     item = case.get("item")
     return [(c, e, o) for c, e, o in v if item is None or str(e)[:80] == item]
